@@ -8,6 +8,7 @@ package main
 
 import (
 	"fmt"
+	"os"
 	"runtime"
 	"sort"
 
@@ -39,6 +40,10 @@ func main() {
 		// reseek of the iterator and its next call (a counter copy narrower than the tree's would
 		// make the iterator believe nothing changed).
 		r.Cases("wrap", r.Scale(48, 400), runtime.GOMAXPROCS(0), func(c *vkit.Case) { dispatch(c, c.Index%8) })
+		if r.Thorough() || os.Getenv("VERIF_WRAP32_TOTAL") != "" {
+			r.Cases("wrap32", 6, 6, func(c *vkit.Case) { wrap32(c) })
+			r.Floor("wrap32 trials", r.Table("mutations", "exactly 2^32 modifications between two calls of one iterator"), 6)
+		}
 		r.Floor("histories with a Next after a structural change around the parked key", r.Table("histories", "non-trivial"), int64(n/5))
 		for _, k := range []string{"parked node replaced", "parked node vanished", "levels changed", "tree emptied", "root replaced"} {
 			r.Floor("Next after: "+k, r.Table("next after", k), 5)
